@@ -61,21 +61,25 @@ impl MemoryProbe {
                     ));
                 }
             }
+            // receive side: complete messages count with their length; how much a partial reassembly is charged is
+            // the implementation's choice between nothing and its whole slices (num_slices * 1200)
             for c in &s.receive_reliable {
-                let held: usize = c.buffered.iter().map(|b| b.1).sum::<usize>() + c.partial.iter().map(|p| p.num_slices * 1200).sum::<usize>();
-                if c.memory_usage_bytes != held {
+                let complete: usize = c.buffered.iter().map(|b| b.1).sum::<usize>();
+                let partial_max: usize = c.partial.iter().map(|p| p.num_slices * 1200).sum::<usize>();
+                if c.memory_usage_bytes < complete || c.memory_usage_bytes > complete + partial_max {
                     return Err(Violation::new(
                         "C09/accounting-differs-from-held-data/receive-reliable",
-                        format!("endpoint {} receive-reliable channel {}: {} bytes accounted, buffered messages and partial reassemblies hold {} ({}, tick {})", e, c.channel_id, c.memory_usage_bytes, held, what, l.tick),
+                        format!("endpoint {} receive-reliable channel {}: {} bytes accounted, buffered messages hold {} and partial reassemblies at most {} more ({}, tick {})", e, c.channel_id, c.memory_usage_bytes, complete, partial_max, what, l.tick),
                     ));
                 }
             }
             for c in &s.receive_unreliable {
-                let held: usize = c.queued_lens.iter().sum::<usize>() + c.partial.iter().map(|p| p.num_slices * 1200).sum::<usize>();
-                if c.memory_usage_bytes != held {
+                let complete: usize = c.queued_lens.iter().sum::<usize>();
+                let partial_max: usize = c.partial.iter().map(|p| p.num_slices * 1200).sum::<usize>();
+                if c.memory_usage_bytes < complete || c.memory_usage_bytes > complete + partial_max {
                     return Err(Violation::new(
                         "C09/accounting-differs-from-held-data/receive-unreliable",
-                        format!("endpoint {} receive-unreliable channel {}: {} bytes accounted, queued messages and partial reassemblies hold {} ({}, tick {})", e, c.channel_id, c.memory_usage_bytes, held, what, l.tick),
+                        format!("endpoint {} receive-unreliable channel {}: {} bytes accounted, queued messages hold {} and partial reassemblies at most {} more ({}, tick {})", e, c.channel_id, c.memory_usage_bytes, complete, partial_max, what, l.tick),
                     ));
                 }
             }
@@ -203,7 +207,7 @@ impl Probe for MemoryProbe {
                     .filter(|p| p.last_received.map(|t| s.current_time.saturating_sub(t).as_millis() < 3000).unwrap_or(false))
                     .map(|p| p.num_slices * 1200)
                     .sum();
-                if c.memory_usage_bytes != young {
+                if c.memory_usage_bytes > young {
                     res.push(format!(
                         "receive-unreliable ch{}: {} (fragments younger than 3 s explain {})",
                         c.channel_id, c.memory_usage_bytes, young
